@@ -232,6 +232,17 @@ def mgr_state(res):
                       and t["role"] != "manager"))
     if dead:
         ctx.append("blocked-on-dead:" + "+".join(dead))
+    if any("join_executor_internals/waitpid" in b for b in blocked) and not dead:
+        swept = [t for (k_, t, s_) in res.kernel.kills if k_ == 100 and s_ == 9]
+        for i in res.obs.executors.values():
+            if i["flags"].broken is not None and swept:
+                # terminate_broken() killed every worker registered at the break: a registered worker that is
+                # alive now and younger than all of those was spawned into the broken executor afterwards
+                late = [p.pid for p in res.kernel.procs.values()
+                        if p.alive and p.role == "worker" and p.orig_ppid == 100 and p.pid > max(swept)]
+                if late:
+                    ctx.append("late-worker-in-broken-executor")
+                    break
     if not any(t["pid"] == 100 and t["role"] == "manager" for t in (res.sched.snapshot or [])):
         for i in res.obs.executors.values():
             if i["flags"].shutdown and any(res.kernel.procs[pid].alive for pid in i["processes"]):
